@@ -18,7 +18,7 @@ E_SEMANTIC = 102
 E_FUEL = 99
 
 MODEL_FUEL = 60000          # loop iterations granted to the model's _match
-IMPL_BUDGET = 400000        # node look-ups granted to the implementation (a diverging query exceeds both)
+IMPL_BUDGET = 200000        # node look-ups granted to the implementation (a diverging query exceeds both)
 
 
 # ---------------------------------------------------------------------------------------------
@@ -195,8 +195,33 @@ def exc_code(e):
     return base(e)
 
 
+class _LarkMemo:
+    """lark.Lark(grammar, ...) analyses the grammar on every call (~60 ms); compile_lvs builds one per schema.
+    The real compile_lvs still runs unchanged; only the construction is memoised per (grammar text, options)."""
+
+    def __init__(self, real):
+        self._real = real
+        self._cache = {}
+
+    def __getattr__(self, k):
+        return getattr(self._real, k)
+
+    def Lark(self, grammar, **kw):
+        key = (grammar, kw.get('parser'), type(kw.get('transformer')).__name__)
+        if key not in self._cache:
+            self._cache[key] = self._real.Lark(grammar, **kw)
+        return self._cache[key]
+
+
+def _memo_lark():
+    import ndn.app_support.light_versec.compiler as C
+    if not isinstance(C.lark, _LarkMemo):
+        C.lark = _LarkMemo(C.lark)
+
+
 def impl_compile(text):
     from ndn.app_support.light_versec import compile_lvs
+    _memo_lark()
     try:
         return ('ok', compile_lvs(text))
     except Exception as e:   # noqa
@@ -350,7 +375,7 @@ class Gen:
             return ('lit', rng.choice(lits + ['q1']))
         if t < 0.75:
             return ('pat', rng.choice(pats))
-        f = rng.choice(['$eq', '$eq', '$eq_type', '$tab', '$tab2', '$nofn'])
+        f = rng.choice(['$eq', '$eq', '$eq', '$eq_type', '$eq_type', '$tab', '$tab', '$tab2', '$tab2', '$tab2', '$nofn'])
         if f == '$tab':
             arity = 0
         elif f == '$tab2':
